@@ -437,6 +437,17 @@ func checkC09(c *Ctx, r *Report) {
 					added = true
 				}
 			}
+			// every question is measured (Pack, Len and the early uncompressed test count all of them): the receiver is
+			// the element of a range over dns.Question, not a fixed index
+			recv := args[0]
+			if u, ok := recv.(*ssa.UnOp); ok {
+				recv = u.X
+			}
+			if ia, ok := recv.(*ssa.IndexAddr); ok {
+				if _, isK := constIntOf(ia.Index); isK {
+					ps = append(ps, fmt.Sprintf("%s: only dns.Question[%v] is measured: a reply with more questions is budgeted too small and packs larger than the size it was truncated to", c.pos(call.Pos()), ia.Index))
+				}
+			}
 			if !added || !reachesConst(args[1], 12) {
 				ps = append(ps, "the question walk does not thread the running length from the 12-octet header")
 			}
